@@ -56,6 +56,7 @@ import (
 	stdcontext "context"
 	"fmt"
 	"io"
+	"log"
 	"net"
 	"net/http"
 	"sort"
@@ -117,6 +118,7 @@ type c17Scenario struct {
 	SegSize     int          `json:"seg_size"`
 	DelayUs     int64        `json:"delay_us"`
 	DoubleClose int          `json:"double_close"` // http-ll: every k-th accepted connection is closed twice (0 = never)
+	AcceptErrs  []int        `json:"accept_errs"`  // ordinals of the listener's Accept calls that fail with a temporary error
 	HClients    []c17HClient `json:"h_clients"`
 	Admin       []c17Resize  `json:"admin"`
 	MClients    []c17MClient `json:"m_clients"`
@@ -146,6 +148,11 @@ func c17GenHTTP(rng *sim.Rand, sc *c17Scenario) {
 	sc.Cap = rng.Pick(1, 1, 2, 2, 3, 4, 6)
 	if sc.Kind == "http-ll" && rng.Bool(0.5) {
 		sc.DoubleClose = rng.Pick(1, 2, 3)
+	}
+	if sc.Kind == "http-ll" && rng.Bool(0.3) {
+		for k, n := 0, rng.Range(1, 3); k < n; k++ {
+			sc.AcceptErrs = append(sc.AcceptErrs, rng.Range(1, 12))
+		}
 	}
 	nc := rng.Range(2, 12)
 	if sc.Kind == "http-rt" {
@@ -280,6 +287,8 @@ type c17H struct {
 	silent        bool
 
 	doubleClose int
+	acceptErrs  map[int]bool
+	acceptCalls int
 	hist        []string
 	sig         strings.Builder
 
@@ -383,7 +392,20 @@ type c17Lis struct {
 	h *c17H
 }
 
+type c17TempErr struct{}
+
+func (c17TempErr) Error() string   { return "accept: too many open files (injected)" }
+func (c17TempErr) Timeout() bool   { return false }
+func (c17TempErr) Temporary() bool { return true }
+
 func (l *c17Lis) Accept() (net.Conn, error) {
+	l.h.acceptCalls++
+	if l.h.acceptErrs[l.h.acceptCalls] && !l.h.teardown {
+		// the kernel refuses the accept (EMFILE and the like); net/http retries
+		l.h.r.Fault("http.accept_temporary_error")
+		l.h.note("accepterr #%d", l.h.acceptCalls)
+		return nil, c17TempErr{}
+	}
 	l.h.acceptPending++
 	c, err := l.Listener.Accept()
 	l.h.acceptPending--
@@ -494,7 +516,10 @@ func c17ExecHTTP(r *sim.Run, sc *c17Scenario) {
 	defer n.Shutdown()
 
 	h := &c17H{r: r, open: map[int]bool{}, clientClosing: map[int]bool{}, served: map[int]bool{},
-		caps: []int{sc.Cap}, lastCap: sc.Cap, settled: true, doubleClose: sc.DoubleClose}
+		caps: []int{sc.Cap}, lastCap: sc.Cap, settled: true, doubleClose: sc.DoubleClose, acceptErrs: map[int]bool{}}
+	for _, k := range sc.AcceptErrs {
+		h.acceptErrs[k] = true
+	}
 	h.adminBusy = func() bool { return false }
 	const addr = ":10080"
 
@@ -545,7 +570,7 @@ func c17ExecHTTP(r *sim.Run, sc *c17Scenario) {
 		}
 		h.sim, _ = l.(*simnet.Listener)
 		ll := limitlistener.NewLimitListener(&c17Lis{Listener: l, h: h}, uint32(sc.Cap))
-		srv := &http.Server{Handler: http.HandlerFunc(func(w http.ResponseWriter, req *http.Request) {
+		srv := &http.Server{ErrorLog: log.New(io.Discard, "", 0), Handler: http.HandlerFunc(func(w http.ResponseWriter, req *http.Request) {
 			w.Header().Set("Content-Length", "2")
 			w.Write([]byte("ok"))
 		})}
@@ -1166,7 +1191,17 @@ func c17ExecMQTT(r *sim.Run, sc *c17Scenario) {
 		}
 	}
 	r.SetInvariant(nil)
-	b.close()
+	if r.Violated() || r.Aborted() {
+		// connections may still be in their handshake: Broker.close sets the
+		// client table to nil and a handleConn arriving afterwards would panic
+		// the process (not this property's business), so stop the broker by hand
+		b.setClose()
+		close(b.done)
+		b.listener.Close()
+		b.sessMgr.close()
+	} else {
+		b.close()
+	}
 
 	if refused {
 		r.Probe("mqtt.connect_refused_at_cap")
